@@ -91,6 +91,13 @@ def observe(at, cm, post, fit):
             be = r.frame.big_edges[r.frame.big_edges_list.index(list(r.fm.big_edges_to_use[n]))]
             pts = [complex(x.x, x.y) for x in be.vertices]
             if len(pts) >= 3 and not be.is_straight():
+                # F22 is recorded for FLAT arcs (turning below 0.1 rad): only those are candidates for that attribution
+                tot = 0.0
+                with np.errstate(all="ignore"):
+                    for a_, b_, c_ in zip(pts[:-2], pts[1:-1], pts[2:]):
+                        tot += cmath.phase((c_ - b_) / (b_ - a_))
+                if abs(tot) * (len(pts) - 1) / (len(pts) - 2) >= 0.1:
+                    continue
                 with fsutil.quiet():
                     xc, yc = ve.calculate_circle_center(be.vertices, method="dlite")
                 if pairs.dlite_underconverged_generic(pts, complex(xc, yc)):
@@ -313,7 +320,10 @@ class Poses:
                 continue
             if v:
                 taub_clean = not [x for x in res["taubinSVD"][0] if not x.get("F21")]
-                if fit == "dlite" and far and taub_clean:
+                # F8 as recorded: coefficient pairs change "by up to a few percent". A deviation an order of magnitude above that
+                # is a different failure and is reported
+                dev = (v[0].get("detail") or {}).get("max_dev") if isinstance(v[0].get("detail"), dict) else None
+                if fit == "dlite" and far and taub_clean and (dev is None or dev <= 0.05 or bool(self.tissues[d["t"]][2])):
                     known.append({"id": "F8", "element": g, "chain": d2["chain"], "what": v[0]["what"], "detail": v[0].get("detail")})
                 else:
                     for x in v:
@@ -363,8 +373,10 @@ class Poses:
         under = set(o1.get("underconverged", [])) | set(o2.get("underconverged", []))
         for k, p1 in o1["pairs"].items():
             p2 = o2["pairs"][k]
-            if k.split("|")[1] in under:
-                f22 = True        # F22: leastsq stopped short of the optimum of its own objective for this interface in one of the poses
+            if k.split("|")[1] in under and abs(push_pair(g, complex(p1[2], p1[3])) - complex(p2[2], p2[3])) <= 0.06:
+                # F22: leastsq stopped short of the optimum of its own objective for this (flat) interface in one of the poses;
+                # as recorded the tangent is then off by up to 0.05 rad - a larger deviation is judged like any other
+                f22 = True
                 continue
             if p1[4] == "f1" or p2[4] == "f1":
                 f1 = True
